@@ -44,15 +44,20 @@ def main():
     n_eval = 0
     distinct = set()
     samples = []
-    embeddings = [("int", lambda v: v), ("float", lambda v: v * 0.1 - 0.35), ("neg", lambda v: float(v - 20) * 1e300)]
+    # order-embeddings (list values are odd, probes 0..10): ints; floats; huge negative floats; and a MIXED one - an
+    # int list probed with floats (equal to a member for odd probes, strictly between members for even ones)
+    embeddings = [("int", lambda v: v, lambda x: x), ("float", lambda v: v * 0.1 - 0.35, lambda x: x * 0.1 - 0.35),
+                  ("neg", lambda v: float(v - 20) * 1e300, lambda x: float(x - 20) * 1e300),
+                  ("int-list-float-probe", lambda v: v, lambda x: float(x) if x % 2 else x + 0.5),
+                  ("float-list-int-probe", lambda v: float(v), lambda x: x)]
     for c in cases:
         l = c["l"] if isinstance(c["l"], list) else []
-        for name, emb in embeddings:
+        for name, emb, pemb in embeddings:
             cl = [emb(v) for v in l]
             for pi, x in enumerate(c["probes"]):
                 exp = c["r"][pi]
                 try:
-                    got = [_none(f(list(cl), emb(x))) for f in fns]
+                    got = [_none(f(list(cl), pemb(x))) for f in fns]
                 except Exception as e:  # noqa
                     got = "raised %r" % (e,)
                 n_eval += 1
@@ -60,8 +65,8 @@ def main():
                 if got != exp:
                     bad = [FUNCS[i] for i in range(5) if got == str(got) or got[i] != exp[i]]
                     rep.violation("%s(%r, %r): expected %r (eq,lt,le,gt,ge; -1=None), got %r [%s embedding]"
-                                  % ("/".join(bad), cl, emb(x), exp, got, name),
-                                  {"kind": "export", "list": cl, "probe": emb(x), "expected": exp, "got": got},
+                                  % ("/".join(bad), cl, pemb(x), exp, got, name),
+                                  {"kind": "export", "list": cl, "probe": pemb(x), "expected": exp, "got": got},
                                   tags=bad)
         if len(samples) < 3 and len(l) >= 4:
             samples.append({"list": l, "probe": c["probes"][4], "expected_eq_lt_le_gt_ge": c["r"][4]})
